@@ -10,6 +10,7 @@ R5 the gate configuration keys are read by the decider configurator
 from __future__ import annotations
 
 import ast
+import re
 
 from ..bags import property_readers
 from ..cfg import CFG
@@ -237,3 +238,41 @@ def run(repo: Repo, rep: Report, tier: str) -> None:
     from .shared import borrow as _borrow3b
     _borrow3b(repo, rep, "C12", "C12-R4", "C03-R10", "a gated cell keeps its reads when another cell is rewritten into a feedback combinator: the rewrite touches the recorded reads "
               "of its own cell only", select=lambda o: "only for reads of the cell" in o.construct or "re-pointed, and only those" in o.construct, floor=1)
+
+    # ---------------- R11 --------------------------------------------------------------
+    rep.rule("C03-R11", "reading a cell delivers the cell's own signal: the only nodes whose output type the lowerer rewrites in place (`x | \"t\"` folded into the producer of x) are "
+             "those that get a combinator of their own with `output_signal` taken from that type; a memory read has no combinator, its signal is the cell's")
+    from ..irschema import ladder as _ladder11
+    ep11 = repo.cls("EntityPlacer")
+    own_out: set[str] = set()
+    def _has_own_output(m, depth=0):
+        if m is None or depth > 2:
+            return False
+        cm = canon(m)
+        for c in calls_in(m.node, "create_and_add_placement"):
+            ov = kwarg(c, "output_signal")
+            if ov is not None and "op.output_type" in cm.text(ov):
+                return True
+        return any(_has_own_output(ep11.methods.get(call_name(c)), depth + 1) for c in calls_in(m.node)
+                   if isinstance(c.func, ast.Attribute) and isinstance(c.func.value, ast.Name) and c.func.value.id == "self" and call_name(c) in ep11.methods)
+    for br in _ladder11(ep11.methods["place_ir_operation"], "op"):
+        handlers = [call_name(c) for st in br.node.body for c in calls_in(st) if isinstance(c.func, ast.Attribute) and isinstance(c.func.value, ast.Name) and c.func.value.id == "self"]
+        if any(_has_own_output(ep11.methods.get(h)) for h in handlers):
+            own_out |= set(br.classes)
+    rep.floor("C03-R11", "IR classes placed as a combinator with their own output signal", len(own_out), 2)
+    rep.analysed["C03-R11:classes with an own output signal"] = sorted(own_out)
+    pf11 = repo.func("ExpressionLowerer._try_fold_projection_into_source")
+    retype11 = [n for n in walk_local(pf11.node) if isinstance(n, ast.Assign) and isinstance(n.targets[0], ast.Attribute) and n.targets[0].attr == "output_type"]
+    if not retype11:
+        raise AnalysisError("C03-R11: the in-place retyping store was not found")
+    recv = norm(retype11[0].targets[0].value)
+    allowed11: set[str] = set()
+    for g, pol in cguards(pf11, retype11[0]):
+        m11 = re.fullmatch(rf"isinstance\({re.escape(canon(pf11).text(retype11[0].targets[0].value))}, \(?([\w, ]+)\)?\)", g)
+        if m11 and pol:
+            allowed11 |= {x.strip() for x in m11.group(1).split(",") if x.strip()}
+    if not allowed11:
+        rep.bad("C03-R11", "the retyping store is guarded by a class test", f"`{norm(retype11[0])}` is reached for any producer class", pf11.loc(retype11[0]))
+    for cname in sorted(allowed11):
+        rep.check(cname in own_out, "C03-R11", f"in-place retyping of {cname} nodes", "the class is placed with its own output signal" if cname in own_out else
+                  f"{cname} has no combinator with an output signal of its own: `m.read() | \"signal-B\"` renames the read, nothing emits signal-B and every consumer reads 0", pf11.loc(retype11[0]))
